@@ -511,3 +511,38 @@ func TestC11Regress(t *testing.T) {
 		runC11(t, c)
 	}
 }
+
+// TestC11EnumPatterns: every kind of pattern the generator knows, alone in a permit rule (and alone in a deny
+// rule in front of a permit-all), against every argument value of the pool, one and two arguments: the
+// decisions are the model's.  Deterministic, so that no kind of pattern depends on the draw of the day.
+func TestC11EnumPatterns(t *testing.T) {
+	patterns := []string{"terminal", ".*", "terminal|exclusive", "^terminal", "version$", "^terminal|version$", "(terminal|system)", "version.*", `\.system`, `terminal \| reload`,
+		"[a-z]+", "  terminal\t", "", "(", "[a", "*", `\`, "^terminal version$", "terminal (version|system)", `.*\$`, "^$",
+		"terminal{2}", "terminal{1,2}", "versio{0,}", "9{3}", "x{2,3}", "[0-9]{1,3}", "9{2,}", "(ab){2}", "a{2,1}", "x{1001}", "9{3", "{3}", "a{,2}",
+		"(?i)TERMINAL", `\d+`, `\w+ \w+`, `\S*`, `\bversion\b`, `\d{3}`, "terminal?", "version.*?", "terminal+?", "version??", "[^ ]+", "[[:alpha:]]+", "[^0-9]*", "[a-z ]+",
+		"(?P<n>terminal)", "(?:version)+", "(system)?terminal", ".* version", "(.* )?terminal( .*)?"}
+	values := append([]string{";", "reload", "|", "a b", "", "terminal;reload", "detail=all", "a*b", "999", "99", "9999", "xx", "xxx", "x", "abab", "ab", "9{3}", "x{2,3}", "TERMINAL", "terminall", "terminal", "versio", "version", "123", "12", "system terminal", "$"}, c11Words...)
+	for half := 0; half < 2; half++ {
+		var c c11Case
+		c.Format = []string{"yaml", "json"}[half]
+		c.Cfg.Secrets = []cfggen.Secret{cfggen.NewSecret(cfggen.ScopeA, cfggen.KeyA, cfggen.PrefixA)}
+		for i, p := range patterns {
+			permit := cfggen.User{Name: fmt.Sprintf("p%d", i), Scopes: []string{cfggen.ScopeA}, Commands: []cfggen.Command{{Name: "show", Match: []string{p}, Action: cfggen.ActionPermit}}}
+			deny := cfggen.User{Name: fmt.Sprintf("d%d", i), Scopes: []string{cfggen.ScopeA}, Commands: []cfggen.Command{{Name: "show", Match: []string{p}, Action: cfggen.ActionDeny}, {Name: "*", Action: cfggen.ActionPermit}}}
+			c.Cfg.Users = append(c.Cfg.Users, permit, deny)
+			for k, v := range values {
+				if (i+k)%2 != half {
+					continue
+				}
+				for _, u := range []string{permit.Name, deny.Name} {
+					c.Reqs = append(c.Reqs, c11Req{User: u, Args: []string{"service=shell", "cmd=show", "cmd-arg=" + v}})
+				}
+				if k%5 == 0 {
+					c.Reqs = append(c.Reqs, c11Req{User: permit.Name, Args: []string{"service=shell", "cmd=show", "cmd-arg=" + v, "cmd-arg=" + values[(k+7)%len(values)]}})
+				}
+			}
+		}
+		runC11(t, c)
+		classifyC11(c)
+	}
+}
